@@ -247,6 +247,42 @@ def table_neutral(residues, structs):
     return {"table_rows": rows, "distinct": rows, "violations": violations, "samples": samples}
 
 
+def h_propka_text(eng, n):
+    """the structure text handed to PROPKA (real io.print_biomolecule_atoms(..., chainflag=args.keep_chain, pdbfile=True), as
+    main.run_propka calls it) is the same with and without --keep-chain, for atoms whose chain ids are symbolic: the flag
+    is a formatting option of the PQR file and may not reach the titration input (round 6: a TER record written in full
+    under the flag made PROPKA see an extra N-terminus)"""
+    from pdb2pqr import io, structures
+
+    def atoms():
+        out = []
+        for k in range(n):
+            a = structures.Atom(type_="ATOM" if k % 2 == 0 else "HETATM")
+            a.name, a.res_name, a.res_seq, a.ins_code, a.alt_loc = f"C{k}", "ALA", 5 + k, "", ""
+            a.chain_id = chains[k]
+            a.x, a.y, a.z, a.ffcharge, a.radius = 1.0 + k, 2.0, 3.0, 0.25, 1.5
+            a.occupancy, a.temp_factor, a.seg_id, a.element, a.charge = 1.0, 20.0, "", "C", ""
+            out.append(a)
+        return out
+
+    if eng.symbolic:
+        chains = [strs.sym_name(eng, f"chain{k}", 1, "ABC") for k in range(n)]
+    else:
+        chains = [chr(eng.int(f"chain{k}_c0")) for k in range(n)]
+    from symx import rewrite
+
+    sym = (c08._patches(eng) + rewrite.function_patches(io, "print_biomolecule_atoms") + rewrite.method_patches(structures.Atom, "get_pdb_string")) if eng.symbolic else []
+    with patched(*sym):
+        plain = io.print_biomolecule_atoms(atoms(), False, True)
+        flagged = io.print_biomolecule_atoms(atoms(), True, True)
+    if strs.leaked(plain) or strs.leaked(flagged):
+        raise core.Inconclusive("layout-string model bypassed")
+    eng.check(len(plain) == len(flagged), "propka-input-independent-of-keep-chain", note=f"{len(plain)} lines without --keep-chain, {len(flagged)} with it")
+    if len(plain) == len(flagged):
+        same = And(*[(p == f) if (isinstance(p, strs.SymStr) or isinstance(f, strs.SymStr)) else (str(p) == str(f)) for p, f in zip(plain, flagged)])
+        eng.check(same, "propka-input-independent-of-keep-chain", note=f"the text handed to PROPKA differs under --keep-chain: {[str(x)[:30] for x in flagged if not isinstance(x, strs.SymStr)][:3]}")
+
+
 def obligations(tier):
     obs = []
     combos = [(0, 1, 0), (1, 0, 1), (2, 1, 0)] if tier == "quick" else [(f, p, l) for f in (0, 1, 2) for p in (0, 1) for l in (0, 1)]
@@ -278,6 +314,7 @@ def obligations(tier):
     res = ["ALA", "GLY", "PRO", "LYS"] if tier == "quick" else ["ALA", "ARG", "ASP", "CYS", "GLU", "GLY", "HIS", "LYS", "PRO", "SER", "TYR"]
     for s in STRUCTS:
         obs.append(Obligation(f"neutral-termini-{s}", table_neutral, dict(residues=res if s == "tripeptide" else res[:2], structs=[s]), kind="table", group="neutral-termini"))
+    obs.append(Obligation("propka-text-keep-chain-n3", h_propka_text, dict(n=3), group="propka-text", time_cap=900, max_paths=100000))
     return obs
 
 
